@@ -86,6 +86,9 @@ def root_cause(sql, tree, span=None):
         return "dropped:prefix-operator-right-of-tighter-operator"
     if re.search(r"\bfilter\s*\(.*\)\s*over\b", sql, re.I | re.S):
         return "dropped:filter-then-over"
+    if re.search(r"::\s*\w+(?:\s*\([\d\s,]*\))?\s*\.\s*\w", sql):
+        # the same engine behaviour as filter-then-over: a tighter suffix operator (.field) written behind a looser one (::type)
+        return "dropped:cast-then-accessor"
     if SETOP_RE.search(sql) and re.search(r"\b(fetch|for\s+update|for\s+share)\b", sql, re.I):
         return "dropped:setop-fetch-or-locking"
     return None
@@ -108,6 +111,9 @@ def run(ctx, scale=1):
     stmts += pool.expr_statements(ctx, (300 if ctx.quick else 5000) * scale, depth=(2, 3))
     stmts += [{"sql": s, "dialect": "common", "origin": "targeted"} for s in [
         "select a1 + ~ b2 from t3", "select a1 = not b2 from t3", "select sum(x1) filter (where c2 > 3) over (partition by p4 order by o5) from t6",
+        # suffix operators behind one another, tighter behind looser and the reverse
+        "select a1::int.b2 from t3", "select f1(a2)::varchar(7).b3 + 4 from t5", "select (a1::int).b2, a3.b4::int, f5(a6).b7::text, (a8).b9.c10 from t3",
+        "select a1:b2.c3::int, f4(x5):y6 from t7", "select sum(x1) over (order by o2) filter (where y3 > 4) from t5",
         # aggregate modifiers in every order the grammar accepts
         "select percentile_cont(0.5) within group (order by x1) filter (where y2 > 3) from t4",
         "select percentile_cont(0.25) within group (order by x1 desc) over (partition by p5) from t4",
